@@ -49,7 +49,7 @@ ASSUMPTIONS = [
     'mc/ref/msyntax.py (validated: classifies all 181 prim_tags, accepts the 20 recorded contracts); no type checking',
     'annotation syntax is the Michelson reference regexp @%|@%%|%@|[@:%][_0-9a-zA-Z][_0-9a-zA-Z.%@]* (plus the empty '
     'annotations); annotations on data constructors and sections are outside the statement',
-    'bulk cases reuse one MichelsonParser instance per worker; every failure and every 50th case is re-run through the '
+    'bulk cases reuse one MichelsonParser instance per worker; the first 25 failures of every shard and every 200th case are re-run through the '
     'default path michelson_to_micheline(text) (fresh parser) and must agree',
     '`Ticket` data is taken as Ticket <ticketer> <type> <content> <amount>',
 ]
@@ -476,7 +476,7 @@ def _unparenthesised(e):
     return None
 
 
-def diagnose(e, inline, sort, status, text, back):
+def diagnose(e, inline, sort, status, text, back, shared=False):
     """Name the class of failure of a judged case."""
     c = _unparenthesised(e)
     if c is not None:
@@ -484,7 +484,7 @@ def diagnose(e, inline, sort, status, text, back):
         return (f'argument `{c["prim"]}` with {what} is printed without parentheses',
                 f'{text!r} parses to {_short(back)}')
     s = _sanitize(e)
-    if s != e and roundtrip(s, inline)[0] == 'ok':
+    if s != e and roundtrip(s, inline, shared)[0] == 'ok':
         return ('annotation containing % or @ after its first character is split by the lexer',
                 f'{text!r} parses to {_short(back)}')
     if status == 'format-error':
@@ -515,6 +515,7 @@ class Shard:
     def __init__(self):
         self.r = Result()
         self.n = 0
+        self.confirmed = 0
         self.last = None
 
     def case(self, e, family):
@@ -527,7 +528,9 @@ class Shard:
             self.n += 1
             r.ev()
             status, text, back = roundtrip(e, inline, shared=True)
-            if status != 'ok' or self.n % 50 == 0:
+            sort_fail = sort is not None and status != 'ok'
+            if (sort_fail and self.confirmed < 25) or self.n % 200 == 0:
+                self.confirmed += sort_fail
                 st2, text2, back2 = roundtrip(e, inline)
                 r.extra['default_path_reruns'] += 1
                 if (st2, text2) != (status, text) or (st2 == 'differs' and back2 != back):
@@ -547,7 +550,7 @@ class Shard:
                 if layout == 'multi-line':
                     r.extra['feature:multi-line layout'] += 1
             if status != 'ok':
-                d, detail = diagnose(e, inline, sort, status, text, back)
+                d, detail = diagnose(e, inline, sort, status, text, back, shared=True)
                 r.viol(d, case, f'[{family}] inline={inline} expr={_short(e)} :: {detail}')
             if len(r.samples) < 1 or (self.n % 9973 == 0 and len(r.samples) < 3):
                 r.sample(case)
